@@ -109,6 +109,7 @@ func (impl Implementation) Dgels(trans blas.Transpose, m, n, nrhs int, a []float
 		iascl = 1
 	} else if anrm > bignum {
 		impl.Dlascl(lapack.General, 0, 0, anrm, bignum, m, n, a, lda)
+		iascl = 2
 	} else if anrm == 0 {
 		// Matrix is all zeros.
 		impl.Dlaset(blas.All, max(m, n), nrhs, 0, 0, b, ldb)
